@@ -434,3 +434,65 @@ func (h *H) returnSideChainDepositCases(params *config.Configuration, st *state.
 		}
 	}
 }
+
+// ---------------------------------------------------------------- arbiter multisig programs
+
+// arbiterSignatureCases drives CheckInactiveArbitrators (core/transaction and
+// blockchain copies) and blockchain.CheckRevertToDPOSTransaction: Programs()[0]
+// and the m / n bytes of its code are read before any length test.
+func (h *H) arbiterSignatureCases(mock *state.ArbitratorsMock) {
+	nArb := 4
+	mock.CRCArbitrators, mock.CurrentArbitrators = nil, nil
+	var keys [][]byte
+	for j := 0; j < nArb; j++ {
+		a, err := state.NewOriginArbiter(h.ks[j].enc)
+		if err != nil {
+			panic(err)
+		}
+		mock.CRCArbitrators = append(mock.CRCArbitrators, a)
+		mock.CurrentArbitrators = append(mock.CurrentArbitrators, a)
+		keys = append(keys, h.ks[j].enc)
+	}
+	defer func() { mock.CRCArbitrators, mock.CurrentArbitrators = nil, nil }()
+	minSign := int(float64(nArb)*state.MajoritySignRatioNumerator/state.MajoritySignRatioDenominator) + 1
+	good := msCode(0, minSign, keys, 0, nArb, 0xAE)
+	var lists [][][]byte
+	lists = append(lists, nil, [][]byte{{}}, [][]byte{{0x51}}, [][]byte{{0x51, 0xAE}}, [][]byte{h.rng.Bytes(70)}, [][]byte{good}, [][]byte{good, good})
+	for _, nb := range h.neighbours(good) {
+		lists = append(lists, [][]byte{nb})
+	}
+	foreign := msCode(0, minSign, [][]byte{keys[0], keys[1], keys[2], h.ks[6].enc}, 0, nArb, 0xAE)
+	lowM := msCode(0, minSign-1, keys, 0, nArb, 0xAE)
+	lists = append(lists, [][]byte{foreign}, [][]byte{lowM}, [][]byte{msCode(0, 2, keys[:3], 0, 3, 0xAE)}, [][]byte{stdCode(keys[0])})
+	for i := 0; i < h.run.N(10, 300); i++ {
+		nb := h.neighbours(h.randomCode())
+		lists = append(lists, [][]byte{nb[h.rng.Intn(len(nb))]})
+	}
+	member := keys
+	for _, codes := range lists {
+		var progs []*program.Program
+		for _, c := range codes {
+			progs = append(progs, &program.Program{Code: c, Parameter: []byte{}})
+		}
+		pld := &payload.InactiveArbitrators{Sponsor: keys[0]}
+		var tx interfaces.Transaction = transaction.CreateTransaction(common2.TxVersion09, common2.InactiveArbitrators, 0, pld, nil, nil, nil, 0, progs)
+		in := map[string]interface{}{"codes": zllHex(codes)}
+		o1 := h.call("transaction.CheckInactiveArbitrators", in, func() bool { return transaction.CheckInactiveArbitrators(tx) == nil })
+		o2 := h.call("blockchain.CheckInactiveArbitrators", in, func() bool { return blockchain.CheckInactiveArbitrators(tx) == nil })
+		o3 := h.call("blockchain.CheckRevertToDPOSTransaction", in, func() bool { return blockchain.CheckRevertToDPOSTransaction(tx) == nil })
+		// the m / n / quorum test, replayed (CRC set = arbiter set here, so the three agree)
+		cok := false
+		if len(codes) > 0 && len(codes[0]) >= 71 {
+			c := codes[0]
+			n, m := int(c[len(c)-2])-0x51+1, int(c[0])-0x51+1
+			cok = !(m < 1 || m > n || n != nArb || m < minSign)
+		}
+		for v, o := range []int{o1, o2, o3} {
+			k := h.next()
+			h.sh.Add(fmt.Sprintf("CArbSigs %d %s %s %s %d", k, lib.CoqBool(cok), zll(member), zll(codes), o))
+			in2 := map[string]interface{}{"codes": zllHex(codes), "variant": v, "out": o}
+			h.st.LogCase(h.run.Out, k, in2)
+			h.st.Count(fmt.Sprintf("arbsigs:%d:%v:%d", v, in["codes"], o), len(codes) > 0, "CArbSigs")
+		}
+	}
+}
